@@ -144,11 +144,15 @@ let () =
    PR stage idx items | action      items: L n v.. | B k | O | C ; action: L n v.. | Q (omit) | S (copy)
    PF mode cap inp...   forward driver: "D consumed | cells | posmap | trace"                 *)
 let p_rules : (int * prule) list ref = ref []
+let p_dirs_store : int list ref = ref []
+let p_dirs_reset () = p_dirs_store := []
+let p_dirs_add d = p_dirs_store := !p_dirs_store @ [ d ]
 let () =
-  reg "TB" (fun _ -> e_table := []; p_rules := []; None);
+  reg "TB" (fun _ -> e_table := []; p_rules := []; p_dirs_reset (); None);
   reg "PR" (fun ws ->
       (match split_bar ws with
        | [ st :: idx :: items; act ] ->
+         p_dirs_add (int_of_string st / 10);
          let rec parse = function
            | [] -> []
            | "L" :: n :: r -> let n = int_of_string n in
@@ -161,17 +165,36 @@ let () =
          let a = (match act with
              | "L" :: _ :: vs -> ALit (List.map (fun v -> z_of_int (int_of_string v)) vs)
              | [ "Q" ] -> AOmit | [ "S" ] -> ACopy | _ -> failwith "PR action") in
-         p_rules := !p_rules @ [ (int_of_string st, { p_idx = z_of_int (int_of_string idx); p_test = parse items; p_act = a }) ]
+         p_rules := !p_rules @ [ (int_of_string st mod 10, { p_idx = z_of_int (int_of_string idx); p_test = parse items; p_act = a }) ]
        | _ -> failwith "PR"); None);
   reg "PF" (fun ws -> match ints ws with
       | mode :: cap :: inp ->
-        let st k = List.map snd (List.filter (fun (s, _) -> s = k) !p_rules) in
-        let pt = { pt_main = !e_table; pt_correct = st 0; pt_pass2 = st 2; pt_pass3 = st 3; pt_pass4 = st 4 } in
+        let rules = List.filter (fun (_, d) -> d <> 2) (List.combine !p_rules !p_dirs_store) in
+        let st k = List.map (fun ((_, r), _) -> r) (List.filter (fun ((s, _), _) -> s = k) rules) in
+        let allst k = List.exists (fun (s, _) -> s = k) !p_rules in
+        let np = if allst 4 then 4 else if allst 3 then 3 else if allst 2 then 2 else 1 in
+        let pt = { pt_main = !e_table; pt_correct = st 0; pt_pass2 = st 2; pt_pass3 = st 3; pt_pass4 = st 4; pt_corr = allst 0; pt_np = z_of_int np } in
         (match forward pt (z_of_int mode) (List.map z_of_int inp) (z_of_int cap) with
          | DOk (c, cells, pm, tr) -> Some ("D " ^ string_of_int (int_of_z c) ^ " | " ^ show_zs cells ^ " | " ^ show_zs pm ^ " | " ^ show_zs tr)
          | DUnsupported -> Some "D UNSUPPORTED"
          | DOutOfFuel -> Some "D OUTOFFUEL")
       | _ -> failwith "PF")
+
+(* PB cap inp...  backward driver over the rules whose direction allows it: "D consumed | chars | posmap"
+   (PR stage codes: s = both directions, 10+s = forward only (noback), 20+s = backward only (nofor)) *)
+let () =
+  reg "PB" (fun ws -> match ints ws with
+      | cap :: inp ->
+        let rules = List.filter (fun ((s, _), d) -> d <> 1) (List.combine !p_rules !p_dirs_store) in
+        let st k = List.map (fun ((_, r), _) -> r) (List.filter (fun ((s, _), _) -> s = k) rules) in
+        let allst k = List.exists (fun (s, _) -> s = k) !p_rules in
+        let np = if allst 4 then 4 else if allst 3 then 3 else if allst 2 then 2 else 1 in
+        let pt = { pt_main = !e_table; pt_correct = st 0; pt_pass2 = st 2; pt_pass3 = st 3; pt_pass4 = st 4; pt_corr = allst 0; pt_np = z_of_int np } in
+        (match backward pt (List.map z_of_int inp) (z_of_int cap) with
+         | BDOk (c, chars, pm, _) -> Some ("D " ^ string_of_int (int_of_z c) ^ " | " ^ show_zs chars ^ " | " ^ show_zs pm)
+         | BDUnsupported -> Some "D UNSUPPORTED"
+         | BDOutOfFuel -> Some "D OUTOFFUEL")
+      | _ -> failwith "PB")
 
 (* ---- backward engine for single-cell definition tables (uses the TB/TE table)
    BK cap cells...   ->  "B consumed | chars | posmap"  / "B UNSUPPORTED"
